@@ -20,6 +20,7 @@ import (
 	"fmt"
 	"io"
 	"net/http"
+	neturl "net/url"
 	"sync"
 	"sync/atomic"
 )
@@ -77,6 +78,13 @@ func newDuplexHTTPCall(
 		url,
 		pipeReader,
 	)
+	if err != nil {
+		// The URL got past NewClient's check but not past net/http's (a fragment
+		// with a stray percent sign does). There's no request to send; put an
+		// empty one in its place so that the accessors have something to hand
+		// out.
+		request = (&http.Request{Method: http.MethodPost, URL: &neturl.URL{}, Body: pipeReader}).WithContext(ctx)
+	}
 	request.Header = header
 	client := &duplexHTTPCall{
 		ctx:               ctx,
@@ -95,6 +103,9 @@ func newDuplexHTTPCall(
 		client.sendRequestOnce.Do(func() {})
 		connectErr := errorf(CodeUnavailable, "construct *http.Request: %w", err)
 		client.SetError(connectErr)
+		// Nothing will ever close responseReady on our behalf: there is no
+		// request goroutine. Receive and the Close methods wait for it.
+		close(client.responseReady)
 	}
 	return client
 }
